@@ -1,5 +1,5 @@
 import ProductMD.Model.TreeInfo
-import ProductMD.Model.IniText
+import ProductMD.Model.IniParse
 /-!
 Model of `productmd/discinfo.py`: four lines (timestamp, description, arch, disc numbers).
 
@@ -30,20 +30,22 @@ def obj (x : DiscInfo) : Obj :=
   [("timestamp".toList, .float x.timestamp), ("description".toList, .str x.description),
    ("arch".toList, .str x.arch), ("disc_numbers".toList, discsPy x.discs)]
 
+/-- the fourth line: `"ALL"` or `",".join(str(i) for i in disc_numbers)` -/
+def discsStr : Discs → Str
+  | .all => "ALL".toList
+  | .nums ns => Str.joinWith ',' (ns.map Str.intStr)
+
 /-- `DiscInfo.serialize(parser)` into an empty list of lines -/
 def serialize (x : DiscInfo) : Except Err (List Str) := do
   validateClass "discinfo.DiscInfo" (obj x)
-  pure [Str.strip x.timestamp, Str.strip x.description, Str.strip x.arch,
-        match x.discs with
-        | .all => "ALL".toList
-        | .nums ns => Str.joinWith ',' (ns.map Str.intStr)]
+  pure [Str.strip x.timestamp, Str.strip x.description, Str.strip x.arch, discsStr x.discs]
 
 /-- `build_file`: `"\n".join(lines)` -/
 def buildFile (lines : List Str) : Str := Str.joinWith '\n' lines
 
 /-- `parse_file`: `[i.strip() for i in f.readlines()]` -/
 def parseFile (text : Str) : List Str :=
-  (IniText.linesOf text).map Str.strip
+  (IniParse.fileLines text).map Str.strip
 
 def mapMInt : List Str → Except Err (List Int)
   | [] => .ok []
@@ -52,6 +54,11 @@ def mapMInt : List Str → Except Err (List Int)
     | .ok n => match mapMInt ss with
       | .error e => .error e
       | .ok ns => .ok (n :: ns)
+
+/-- the disc numbers of the (stripped) fourth line: nothing or `ALL` → `["ALL"]`, else `[int(i) for i in line.split(",")]` -/
+def readDiscs (dn : Str) : Except Err Discs :=
+  if dn.isEmpty || dn == "ALL".toList then .ok Discs.all
+  else (mapMInt (Str.splitOn ',' dn)).map Discs.nums
 
 /-- `s.strip("\"'")` -/
 def stripQuotes (s : Str) : Str := Str.stripChars ['"', '\''] s
@@ -73,8 +80,7 @@ def deserialize (fo : FloatOracle) (lines : List Str) : Except Err DiscInfo :=
       let description := stripQuotes (Str.strip l1)
       let arch := Str.strip l2
       let dn := match rest with | l3 :: _ => Str.strip l3 | [] => []
-      match (if dn.isEmpty || dn == "ALL".toList then .ok Discs.all
-             else (mapMInt (Str.splitOn ',' dn)).map Discs.nums : Except Err Discs) with
+      match readDiscs dn with
       | .error e => .error e
       | .ok discs =>
         match validateClass "discinfo.DiscInfo" (obj ⟨ts, description, arch, discs⟩) with
